@@ -410,7 +410,7 @@ func minimise(t *testing.T, prop *Property, res *RunResult, budget time.Duration
 		rf.Program, rf.Tape, rf.Minimised = res.Prog, res.Tape, false
 		final = RunOne(t, prop, res.Prog, simrt.NewReplay(res.Tape), true)
 		if !sameClass(final.Violations, class) {
-			rf.Violation = append(violationStrings(res.Violations), "WARNING: replay of the recorded tape did not reproduce the violation (simulator nondeterminism)")
+			rf.Violation = append(violationStrings(res.Violations), fmt.Sprintf("WARNING: replay of the recorded tape did not reproduce the violation (simulator nondeterminism); replay gave infra=%q violations=%v overrun=%d", final.Infra, violationStrings(final.Violations), final.Overrun))
 			rf.Class = "nondeterministic"
 			return rf
 		}
